@@ -821,8 +821,17 @@ func (m *lockMon) onStep(s *sched.Sim) error {
 				m.out.notJudged("idle-live-holder-below-majority:" + h.att.lostWhy)
 			}
 			if now.Sub(h.notOwningAt) > m.bound {
-				m.flag(h, "loss-not-noticed", "%s: owns %d of %d keys (majority %d) since %v of fake time (first loss: %s), longer than validity %v + interval %v + slack, and its lock context is still live at step %d",
-					m.describe(h), own, m.total, m.p.Majority, now.Sub(h.notOwningAt), h.att.lostWhy, m.validity, m.interval, s.Step)
+				rule, why := "loss-not-noticed", ""
+				for _, l := range s.Links {
+					if l.StallS2C.After(h.notOwningAt) || l.StallC2S.After(h.notOwningAt) {
+						// a monitor whose extension failed runs the delete script with context.Background() BEFORE it counts
+						// itself out and cancels; on a connection that has gone silent that script waits for as long as the
+						// silence lasts (same ordering as known finding gave-up-keys-while-live)
+						rule, why = "loss-not-noticed-behind-stalled-connection", fmt.Sprintf("; connection %d was stalled during that time", l.ID)
+					}
+				}
+				m.flag(h, rule, "%s: owns %d of %d keys (majority %d) since %v of fake time (first loss: %s), longer than validity %v + interval %v + slack, and its lock context is still live at step %d%s",
+					m.describe(h), own, m.total, m.p.Majority, now.Sub(h.notOwningAt), h.att.lostWhy, m.validity, m.interval, s.Step, why)
 			}
 		}
 		if len(live) >= 2 {
